@@ -193,7 +193,12 @@ def impl_run(TableBundle, NotUnique, blocks, as_df, qs, n):
     for pos, x in enumerate(b):
         pos_of.setdefault(id(x), []).append(seq[pos])
 
-    keys_before = list(b._tables_named.keys())
+    # what the public surface says about the bundle before any lookup (no private attribute is read)
+    probe = NAMES + ["absent", "another absent name"]
+
+    def public_state():
+        return ([nm in b for nm in probe], len(b))
+    keys_before = public_state()
     ans = []
     for q in qs:
         try:
@@ -242,7 +247,7 @@ def impl_run(TableBundle, NotUnique, blocks, as_df, qs, n):
         leaked = b.all("another absent name") or TableBundle(iter([])).all("absent")
     except Exception:  # noqa: BLE001
         leaked = None
-    if list(b._tables_named.keys()) != keys_before or [id(x) for x in b] != order_ids:
+    if public_state() != keys_before or [id(x) for x in b] != order_ids:
         ans.append("STATE-CHANGED-BY-LOOKUP")
     elif leaked:
         ans.append("ALL-RESULT-SHARED")
